@@ -47,7 +47,6 @@ Fixpoint index_where (pred : string -> bool) (fs : list field) (i : nat) : optio
   | f :: r => if pred (f_name f) then Some i else index_where pred r (S i)
   end.
 
-Definition path_join (a b : string) : string := a ++ "/" ++ b.
 
 (* an id that no step defines: a position variable used before (or without) its definition *)
 Definition undefined_mark : nat := 999%nat.
@@ -82,3 +81,6 @@ Definition len_field_index (p : packet) : option nat :=
   | Some n => index_where (String.eqb n) (p_fields p) 0
   | None => None
   end.
+
+Fixpoint number {A} (i : nat) (l : list A) : list (nat * A) :=
+  match l with [] => [] | x :: r => (i, x) :: number (S i) r end.
